@@ -451,6 +451,12 @@ def iop(op, ty, a, b):
         return FALSE
     if op in ('lt',) and not signed and is_const(b) and cbits(b) == 0:
         return FALSE
+    if op in ('lt', 'le') and is_const(a) and not signed and ASSUME_LB:
+        lb = ASSUME_LB.get(b.id)
+        if lb is not None:
+            k = cbits(a)
+            if (op == 'lt' and k < lb) or (op == 'le' and k <= lb):
+                return TRUE
     # range reasoning for `b2i(x) < 2`, `x % 3 < 3`
     if op in ('lt', 'le') and is_const(b):
         hi = upper_bound(a, bits)
@@ -477,6 +483,7 @@ def _nonneg(t):
     return t.op in ('discr_atom', 'b2i', 'bits') or (t.op == 'ite' and _nonneg(t.args[1]) and _nonneg(t.args[2]))
 
 
+ASSUME_LB = {}   # term id -> unsigned lower bound known on the current path
 ASSUME_UB = {}   # term id -> unsigned upper bound known on the current path (set by the interpreter)
 
 
